@@ -149,6 +149,8 @@ pub(crate) mod stream;
 #[cfg(test)]
 pub(crate) mod test;
 pub(crate) mod worker;
+#[cfg(feature = "verif")]
+pub mod verif;
 
 pub type CoordUInt = u64;
 
